@@ -60,6 +60,12 @@
     from the vectorized table) reads `arr.value(row)` without consulting the validity bitmap: a NULL operand is
     compared as its raw slot value instead of making the residual not TRUE.  `Cfg.residualRaw` is what that code
     computes (the driver supplies it: the residual over the rows with NULL cells read as 0).
+  * `dictProbeKeyNoMatch` — a probe input that is itself a join output carries its child's build-side VARCHAR columns
+    dictionary-encoded (`create_joined_batch`, `dict_encode` for builds ≤ 4096 rows).  `extract_join_key` resolves such
+    keys (1720–1738) but the vectorized table does not: `vectorized_hash::hash_arrays` / `compare_row` know no
+    Dictionary array, so a dictionary probe key never equals a plain VARCHAR build key — no probe row finds a candidate.
+  All of the above except the last were repaired in /repo (see known_findings.json: C22-F1 … F5, status fixed); the
+  switches stay as the record of what the unrepaired code did and as negation witnesses.
 -/
 import IQE.Spec.Query
 namespace IQE.Engine.HashJoin
@@ -74,6 +80,7 @@ structure Dev where
   smallProbeEmptyTable : Bool := false
   semiAntiEmptyTable : Bool := false
   compiledFilterRawNulls : Bool := false
+  dictProbeKeyNoMatch : Bool := false
 deriving Repr, Inhabited, DecidableEq
 
 /-- the join's static configuration -/
@@ -153,6 +160,7 @@ def lookup (tbl : HashTable) (k : List Val) : List Nat :=
 
 /-- key candidates of one probe row -/
 def candidates (dev : Dev) (cfg : Cfg) (bl : Bool) (tbl : HashTable) (p : Row) : List Nat :=
+  if dev.dictProbeKeyNoMatch then [] else
   match keyOf (probeCols cfg bl) p dev.nullKeysMatch with
   | none => []
   | some k => if dev.chainNewestFirst then (lookup tbl k).reverse else lookup tbl k
